@@ -177,6 +177,8 @@ func (env *c09Env) mixCert(class, expected string, dns, ids []string, idx int) *
 
 func (env *c09Env) modeMixing() {
 	run := env.run
+	t0 := time.Now()
+	defer func() { run.Extra("mode_mixing_wall_s", float64(time.Since(t0).Milliseconds())/1000) }()
 	c09Write("caS.pem", env.pki.cas["caS"].pem())
 	newNode := func(id string) *netceptor.Netceptor {
 		nc := netceptor.New(context.Background(), id)
